@@ -12,9 +12,11 @@ import (
 	"fmt"
 	"io"
 	"regexp"
+	"strings"
 	"time"
 
 	"github.com/anz-bank/sysl/pkg/parse"
+	"github.com/anz-bank/sysl/pkg/printer"
 	"github.com/anz-bank/sysl/pkg/sysl"
 	"github.com/sirupsen/logrus"
 	"github.com/spf13/afero"
@@ -35,6 +37,7 @@ type feScenario struct {
 	Joined   bool          `json:"joined"`   // also compile the joined form (C04)
 	Text     bool          `json:"text"`     // include the rendered text in the begin event
 	Lint     bool          `json:"lint"`     // record the linter's warnings about calls (beyond the listed properties)
+	Reprint  bool          `json:"reprint"`  // print the model back as Sysl text, compile that and record its facts (beyond the listed properties)
 }
 
 // lint <file:line:col>: Application|Endpoint|Method '<x>' does not exist for call '<App> <- <endpoint>'
@@ -137,6 +140,28 @@ func runOneFrontend(sc feScenario) []tr.Ev {
 			ws = append(ws, []string{mm[1], mm[3], mm[4]})
 		}
 		emit(tr.Ev{"e": "lint", "warnings": ws})
+	}
+	if sc.Reprint {
+		ev := tr.Ev{"e": "reprint", "ok": false, "facts": [][]string{}, "msg": ""}
+		func() {
+			defer func() {
+				if p := recover(); p != nil {
+					ev["msg"] = "panic: " + fmt.Sprint(p)
+				}
+			}()
+			var buf bytes.Buffer
+			printer.Module(&buf, cr.m)
+			rc := compileFiles([]*render.File{{Name: "main.sysl", Lines: strings.Split(strings.TrimSuffix(buf.String(), "\n"), "\n")}}, "main.sysl")
+			if sc.Text {
+				ev["printed"] = buf.String()
+			}
+			if rc.panic != "" || rc.err != nil {
+				ev["msg"] = fmt.Sprint(rc.panic, rc.err)
+				return
+			}
+			ev["ok"], ev["facts"] = true, factsJSON(project.Module(rc.m, project.Options{}).Facts)
+		}()
+		emit(ev)
 	}
 	base := digestNoLoc(cr.m)
 	// layout variants of the same declarations (C03)
